@@ -362,6 +362,32 @@ theorem validateHeaderChain_equals_sequential (env : Env) (chain : Chain) (hs : 
     rw [validateHeaderChain_rejects_unlinked env chain hs seals completion hl']
     simp [hl']
 
+/-- **results are consumed in lock-step** (the assumption under which the per-index theorems speak about `InsertChain`, made
+    explicit and proved for the loop as written): `insertChain2` receives exactly one result per block, in order, before any
+    `continue`; hence, for every completion order of the workers, block `i` of the batch is judged by `workerResult i` — and by
+    `batch_equals_sequential` by what one-by-one `VerifyHeader` says about it. -/
+theorem results_consumed_in_lockstep (env : Env) (chain : Chain) (hs : List Header) (seals : List Bool) (completion : List Nat)
+    (hall : ∀ i, i < hs.length → i ∈ completion) :
+    consumeResults (fun _ => false) 0 hs.length (verifyHeadersBatch env chain hs seals completion) =
+      (List.range hs.length).map (fun i => (i, workerResult env chain hs seals i)) := by
+  have h1 : verifyHeadersBatch env chain hs seals completion = (List.range hs.length).map (workerResult env chain hs seals) :=
+    coordinator_complete _ _ _ hall
+  have hlen : (verifyHeadersBatch env chain hs seals completion).length = hs.length := by rw [h1]; simp
+  have := consumeResults_lockstep (verifyHeadersBatch env chain hs seals completion) 0
+  rw [hlen] at this
+  rw [this, h1, List.range_eq_range']
+  apply List.ext_getElem
+  · simp
+  · intro i h₁ h₂
+    simp
+
+/-- the alignment is load-bearing: a `continue` placed before the receive (e.g. for an already imported block) makes the NEXT
+    block be judged by the skipped block's result — here block 1 (whose own result is `extra`) is judged by block 0's `nil`. -/
+theorem skip_before_receive_misaligns :
+    consumeResults (fun i => i == 0) 0 2 [(none : Option VErr), some .extra] = [(1, none)] ∧
+    consumeResults (fun _ => false) 0 2 [(none : Option VErr), some .extra] = [(0, none), (1, some .extra)] := by
+  decide
+
 /-- two schedules of the same batch report the same thing. -/
 theorem batch_schedule_independent (env : Env) (chain : Chain) (hs : List Header) (seals : List Bool) (c₁ c₂ : List Nat)
     (h₁ : ∀ i, i < hs.length → i ∈ c₁) (h₂ : ∀ i, i < hs.length → i ∈ c₂) :
